@@ -2,7 +2,7 @@
 # harness/tryseed.sh <prop> <dir with patch.diff [demo.py]> [tier]
 # Applies a seeded change in a scratch worktree of /repo, runs its demonstration (must FAIL there and
 # PASS on the clean tree) and then the property's check against that tree.
-prop=$1; dir=$2; tier=${3:-quick}
+prop=$1; dir=$(cd "$2" && pwd); tier=${3:-quick}
 wt=/tmp/wt-seed-$$
 git -C /repo worktree add -q --detach $wt HEAD || exit 2
 if [ -f $dir/demo.py ]; then
